@@ -112,6 +112,37 @@ Example c20_nonvacuous_HS :
   init_ok [0%Z] [10%Z] fchk (is_pso prog_HS) st0 /\ ok_run (run [0%Z] [10%Z] fchk hk 1 okc prog_HS o_hs st0) 1 = true.
 Proof. split; [apply st0_init|vm_compute; reflexivity]. Qed.
 
+(* non-vacuity of the history theorem: [st0] starts a history and two harmony-search tasks in a row form one *)
+Example c20_nonvacuous_two_tasks :
+  restart_ok [0%Z] [10%Z] [[[Some 0%Z]]] st0 /\ prog20_ok GRank prog_HS = true /\
+  exists segs x2, tasks20 [0%Z] [10%Z] fchk 1 [[[Some 0%Z]]] [prog_HS; prog_HS] st0 segs x2 /\
+                  map (fun s => length (dumps (seg_evs s))) segs = [1; 1].
+Proof.
+  assert (Hlc : Forall (fun c => In c [[[Some 0%Z]]] /\ wf [0%Z] c) [[[Some 0%Z]]; [[Some 0%Z]]]).
+  { repeat constructor. }
+  split; [|split; [vm_compute; reflexivity|]].
+  - apply (fresh_restart_ok [0%Z] [10%Z] fchk).
+    + constructor; simpl.
+      * intros [|[|[|j]]] a Hn _; simpl in Hn; try discriminate; injection Hn as <-; reflexivity.
+      * intros j a Hc; discriminate.
+      * right. split; [left; reflexivity|split; reflexivity].
+      * split; reflexivity.
+      * intros [|j] a Hn; discriminate.
+      * intros j a Hc; discriminate.
+      * intros c [<-|[<-|[]]]; right; (split; [left; reflexivity|split; reflexivity]).
+      * constructor.
+    + intros a [<-|[<-|[]]]; reflexivity.
+    + reflexivity.
+    + left; reflexivity.
+  - destruct (run [0%Z] [10%Z] fchk hk 1 okc prog_HS o_hs (with_loc st0 [[[Some 0%Z]]; [[Some 0%Z]]])) as [[[x1 e1] o1]|] eqn:E1;
+      [|vm_compute in E1; discriminate].
+    destruct (run [0%Z] [10%Z] fchk hk 1 okc prog_HS o_hs (with_loc x1 [[[Some 0%Z]]; [[Some 0%Z]]])) as [[[x2 e2] o2]|] eqn:E2;
+      [|vm_compute in E1; injection E1 as <- _ _; vm_compute in E2; discriminate].
+    eexists _, x2. split.
+    + eapply tasks20_cons; [exact Hlc|exact E1|]. eapply tasks20_cons; [exact Hlc|exact E2|apply tasks20_nil].
+    + vm_compute in E1. injection E1 as Hx1 <- _. subst x1. vm_compute in E2. injection E2 as _ <- _. reflexivity.
+Qed.
+
 (* ---------------------------------------------------------------- finding (g): WCA
    WCA.run calls _raining_process after the closing sweep and before history.dump: an agent is moved and recorded
    with the fitness of its old position.  Full statement refuted:
